@@ -18,6 +18,8 @@ ChainSet ==
 FaultSet ==
   CASE FaultSetName = "none" -> {[stage |-> 0, at |-> 0, kind |-> "none"]}
     [] FaultSetName = "callbacks" -> {[stage |-> st, at |-> at, kind |-> kd] : st \in {-1, 1, 2}, at \in 0..2, kd \in {"panic-err", "panic-val"}}
+    [] FaultSetName = "observer" -> {[stage |-> st, at |-> at, kind |-> kd] : st \in {98, 99}, at \in 0..1, kd \in {"panic-err", "panic-val"}}
+    [] FaultSetName = "observer-term" -> {[stage |-> 98, at |-> 0, kind |-> kd] : kd \in {"panic-err", "panic-val"}}
     [] OTHER -> {[stage |-> 0, at |-> 0, kind |-> "none"]}
 
 VARIABLES chain, sts, phase, srcSub, srcTorn, srcDone, unsub, closed, log, nitems, nillegal, h, fault, nsubs, prev
